@@ -474,6 +474,25 @@ def legal_pair_programs():
                                     out.append(pr)
     return out
 
+def legal_return_programs():
+    """Deterministic enumeration: every signature kind x every legal spelling of its RETURN / LR_RETURN expression (and the
+    coroutine kinds' CO_RETURN), one program each. All legal: batched into a few translation units per compiler and level."""
+    out = []
+    for kind in ALLK:
+        K = KINDS[kind]
+        if K.coro:
+            terms = co_return_variants(kind, ("ok",))
+        elif K.ret == "void":
+            continue
+        else:
+            terms = return_variants(kind, ("ok",))
+        for t in terms:
+            for family in ("REQUIRE_CALL", "NAMED_ALLOW_CALL"):
+                pr = make_program(kind, family, [t])
+                if not evaluate(pr) and pr not in out:
+                    out.append(pr)
+    return out
+
 def arity_programs():
     """Deterministic enumeration of "a MAKE_MOCKn arity that disagrees with the signature": every n in 0..15 for MAKE_MOCKn and
     MAKE_CONST_MOCKn on a one-parameter and on a two-parameter signature (each n is a separate entry of the macro table)."""
@@ -660,7 +679,7 @@ def _clause_text(kind, op, v):
         duck = "trompeloeil::eq(0)" if KINDS[kind].ret == "ref" else "trompeloeil::eq(3)"
         return {"lit": "1", "a1": "_1", "a1p": "_1 + 1", "lvc": "lv", "lv": "lv", "gv": "vk::gv", "gc": "vk::gc", "str": "\"s\"",
                 "nul": "nullptr", "sref": "std::ref(vk::gv)", "lvref": "std::ref(lv)", "gvp": "&vk::gv", "gcp": "&vk::gc",
-                "lvp": "&lv", "wild": "trompeloeil::_", "typed": "@ANY(int)", "duck": duck, "void": ""}[v]
+                "lvp": "&lv", "wild": "trompeloeil::_", "typed": "@ANY(int)", "duck": duck, "void": "", "plv": "(lv)", "pgv": "(vk::gv)"}[v]
     if base in ("THROW", "CO_THROW"):
         return {"int": "1", "rt": "std::runtime_error(\"x\")", "lv": "lv"}[v]
     if base == "TIMES":
